@@ -181,6 +181,8 @@ pub struct Ctx {
     pub capped: bool,
     pub threads: usize,
     pub machinery_errors: Vec<String>,
+    /// evidence file stem (defaults to the property id)
+    pub evidence_name: String,
 }
 
 fn panic_msg(p: Box<dyn std::any::Any + Send>) -> String {
@@ -276,6 +278,7 @@ impl Ctx {
             capped: false,
             threads,
             machinery_errors: Vec::new(),
+            evidence_name: property.to_string(),
         }
     }
     pub fn quick(&self) -> bool {
@@ -571,7 +574,7 @@ impl Ctx {
             "machinery_errors": self.machinery_errors,
         });
         if self.replay.is_none() && self.only.is_none() {
-            let path = format!("{VERIF_DIR}/evidence/{}.json", self.property);
+            let path = format!("{VERIF_DIR}/evidence/{}.json", self.evidence_name);
             let _ = std::fs::create_dir_all(format!("{VERIF_DIR}/evidence"));
             std::fs::write(&path, serde_json::to_string_pretty(&ev).unwrap()).expect("write evidence");
         }
